@@ -584,6 +584,197 @@ def wl_projective(run, rng, idx):
         plt.close("all")
 
 
+THRESHOLDS = [1000.0, 300.0, "default", 30.0, 5000.0, 150.0, 1000, 12.0]
+
+
+def wl_thresholds(run, rng, idx):
+    """draw_geodesic / get_polygon_arcpath with a radius threshold of the caller's
+    own (larger and smaller than the module default, int or float, by keyword or
+    by position) on segments whose circle has a radius between the default and
+    the passed threshold, above both, or below both: a straight substitute is
+    acceptable only above the threshold actually in force (the postconditions
+    read it from the call).  Seeded change C19-r6-2: draw_geodesic ignoring its
+    radius_threshold argument."""
+    H, D, PR, plt = libs()
+    model = ["poincare", "halfspace"][idx % 2]
+    T = THRESHOLDS[(idx // 2) % len(THRESHOLDS)]
+    where = ["between", "between", "above-both", "below-both"][(idx // 16 + idx // 2) % 4]
+    tk = "isometry" if (idx // 4) % 2 else "identity"
+    n = [1, 3][(idx // 8) % 2]
+    default = float(D.RADIUS_THRESHOLD)
+    t_eff = default if T == "default" else float(T)
+    lo, hi = sorted([default, t_eff])
+    d, A = make_drawing(rng, model, tk, plt, D, H, negate=(idx // 3) % 2 == 1)
+    try:
+        Ks, radii = [], []
+        for j in range(n):
+            w = where if j == 0 else ["between", "above-both", "below-both"][(j + idx) % 3]
+            if w == "between" and hi > lo * 1.05:
+                r = math.exp(rng.uniform(math.log(lo * 1.03), math.log(hi / 1.03)))
+            elif w == "above-both" or (w == "between" and hi <= lo * 1.05):
+                r = hi * rng.uniform(1.2, 3.0)
+            else:
+                r = max(lo * rng.uniform(0.4, 0.85), 7.5)     # half-plane generator: r > 6
+            K = nearly_straight_poly(rng, 3, model, r)
+            if K is None:
+                return run.monitor("geodesic-artist").skip("generator found no segment")
+            Ks.append(K)
+            radii.append(r)
+        Ks = np.array(Ks)
+        P, Q = pull_back(A, Ks[:, 0]), pull_back(A, Ks[:, 1])
+        if n == 1 and idx % 3 == 0:
+            P, Q = P[0], Q[0]
+        run.current_case = {"workload": "thresholds", "model": model, "radius_threshold": T,
+                            "radii": radii, "transform": tk, "matrix": A, "P": P, "Q": Q}
+        seg = H.Segment(H.Point(P), H.Point(Q))
+        if T == "default":
+            d.draw_geodesic(seg)
+        elif idx % 4 == 1:
+            d.draw_geodesic(seg, T)
+        else:
+            d.draw_geodesic(seg, radius_threshold=T, color="gray")
+        if T != "default" and tk == "identity":
+            # the polygon path builder with the same threshold (third vertex random)
+            d.get_polygon_arcpath(H.Polygon(rh.klein_to_proj(Ks[0])), radius_threshold=T)
+        run.note_class("thresholds", model, T, where, tk, n)
+    finally:
+        plt.close("all")
+
+
+EDIT_KINDS = ["segment", "polygon", "segment", "point", "horosphere", "geodesic"]
+EDIT_SETTERS = {
+    "segment": ["set_endpoints-pair", "coords-model", "set_endpoints-array", "coords-klein",
+                "setitem", "coords-projective", "set", "coords-poincare"],
+    "geodesic": ["set_endpoints-pair", "coords-klein", "set_endpoints-array", "setitem", "set"],
+    "polygon": ["coords-model", "coords-klein", "setitem", "coords-projective", "set"],
+    "point": ["coords-model", "coords-klein", "setitem", "coords-projective", "set"],
+    "horosphere": ["set_center_ref-pair", "coords-projective", "set_center_ref-array", "setitem", "set"],
+}
+
+
+def wl_edit_redraw(run, rng, idx):
+    """history: draw an object, move it through a public setter (set_endpoints,
+    set_center_ref, coords(model, data) in Klein / Poincare / half-space /
+    projective coordinates, item assignment, set), draw it again -- the second
+    artist is judged against the object's *current* primary data like the first
+    (the postconditions read obj.proj_data at the time of the call).  For
+    polygons the edges handed out by get_edges() are drawn as well and judged
+    against the edges of the polygon's current vertices.  Seeded change
+    C19-r6-3: a setter leaving the derived ideal endpoints at the old position."""
+    H, D, PR, plt = libs()
+    from . import c19 as base
+    model = HMODELS[idx % 3]
+    kind = EDIT_KINDS[(idx // 3) % len(EDIT_KINDS)]
+    setters = EDIT_SETTERS[kind]
+    setter = setters[(idx // 18 + (3 if (idx // 3) % 6 == 2 else 0)) % len(setters)]
+    tk = "isometry" if (idx // 9) % 2 else "identity"
+    shape = (3,) if idx % 2 else ()
+    if kind == "horosphere" and model == "klein":
+        model = "poincare"
+    if setter == "setitem":
+        shape = (3,)
+    d, A = make_drawing(rng, model, tk, plt, D, H)
+    Ainv = np.linalg.inv(A)
+
+    def klein_points(shp, ideal=False):
+        """Klein coordinates in the drawing's frame, away from the half-plane's
+        point at infinity before and after the transform."""
+        for _ in range(200):
+            K = rh.rand_sphere(rng, 2, shp) if ideal else rh.rand_ball(rng, 2, shp, rmax=0.85)
+            pre = rc.klein_of_proj(rd.apply_columns(Ainv, rh.klein_to_proj(K)))
+            if np.min(rc.inf_distance(K)) > 0.2 and np.min(rc.inf_distance(pre)) > 0.2:
+                return K
+        return None
+
+    def position():
+        """homogeneous data (object's own frame) of a fresh position."""
+        if kind == "point":
+            K = klein_points(shape)
+        elif kind == "polygon":
+            polys = [rand_poly_klein(rng, 4, "convex", "halfspace")
+                     for _ in range(int(np.prod(shape)) if shape else 1)]
+            K = None if any(q is None for q in polys) else np.array(polys).reshape(shape + (4, 2))
+            if K is not None and np.min(rc.inf_distance(rc.klein_of_proj(
+                    rd.apply_columns(Ainv, rh.klein_to_proj(K))))) < 0.2:
+                K = None
+        elif kind == "horosphere":
+            e, r_ = klein_points(shape, ideal=True), klein_points(shape)
+            K = None if e is None or r_ is None else np.stack([e, r_], axis=-2)
+        else:
+            a, b = klein_points(shape, ideal=(kind == "geodesic")), klein_points(shape, ideal=(kind == "geodesic"))
+            if a is None or b is None or np.min(np.linalg.norm(a - b, axis=-1)) < 0.05:
+                return None
+            K = np.stack([a, b], axis=-2)
+        if K is None:
+            return None
+        X = rd.apply_columns(Ainv, rh.klein_to_proj(K))
+        return X
+
+    def draw(obj):
+        if kind in ("segment", "geodesic"):
+            d.draw_geodesic(obj)
+        elif kind == "point":
+            d.draw_point(obj)
+        elif kind == "horosphere":
+            d.draw_horosphere(obj)
+        else:
+            d.draw_polygon(obj, facecolor="lightgreen")
+            X = np.array(obj.proj_data, dtype=float)
+            edges = obj.get_edges()
+            base.DECLARED[id(edges)] = np.stack([X, np.roll(X, -1, axis=-2)], axis=-2)
+            try:
+                d.draw_geodesic(edges)
+            finally:
+                base.DECLARED.pop(id(edges), None)
+
+    try:
+        X0, X1 = position(), position()
+        if X0 is None or X1 is None:
+            return run.monitor("placement").skip("generator found no position")
+        case = {"workload": "edit-redraw", "kind": kind, "model": model, "setter": setter,
+                "transform": tk, "matrix": A, "first_position": X0, "second_position": X1}
+        run.current_case = case
+        if kind == "segment":
+            obj = H.Segment(H.Point(X0[..., 0, :]), H.Point(X0[..., 1, :]))
+        elif kind == "geodesic":
+            obj = H.Geodesic(H.IdealPoint(X0[..., 0, :]), H.IdealPoint(X0[..., 1, :]))
+        elif kind == "polygon":
+            obj = H.Polygon(X0)
+        elif kind == "point":
+            obj = H.Point(X0)
+        else:
+            obj = H.Horosphere(H.IdealPoint(X0[..., 0, :]), H.Point(X0[..., 1, :]))
+        case["phase"] = "first drawing"
+        draw(obj)
+        case["phase"] = "drawing after " + setter
+        K1 = rc.klein_of_proj(X1)
+        if setter == "set_endpoints-pair":
+            obj.set_endpoints(H.Point(X1[..., 0, :]), H.Point(X1[..., 1, :]))
+        elif setter == "set_endpoints-array":
+            obj.set_endpoints(X1)
+        elif setter == "set_center_ref-pair":
+            obj.set_center_ref(H.IdealPoint(X1[..., 0, :]), H.Point(X1[..., 1, :]))
+        elif setter == "set_center_ref-array":
+            obj.set_center_ref(X1)
+        elif setter == "set":
+            obj.set(X1)
+        elif setter == "setitem":
+            j = int(rng.integers(shape[0]))
+            obj[j] = type(obj)(X1[j]) if idx % 4 < 2 else X1[j]
+        elif setter == "coords-projective":
+            obj.coords("projective", X1)
+        elif setter == "coords-klein" or (setter == "coords-model" and model == "klein"):
+            obj.coords("klein", K1)
+        elif setter == "coords-poincare" or (setter == "coords-model" and model == "poincare"):
+            obj.coords("poincare", rh.klein_to_poincare(K1))
+        else:
+            obj.coords("halfspace", rc.model_of_klein(K1, "halfspace"))
+        draw(obj)
+        run.note_class("edit-redraw", kind, model, setter, tk, shape)
+    finally:
+        plt.close("all")
+
+
 def wl_special_positions(run, rng, idx):
     """exact special positions (generator gen/c11special: small dyadic Klein
     coordinates, lifts scaled by powers of two): a segment / polygon edge whose
@@ -693,6 +884,8 @@ WORKLOADS = [
     Workload("horo", wl_horo, quick=60, thorough=1200),
     Workload("projective", wl_projective, quick=96, thorough=1512),
     Workload("special-positions", wl_special_positions, quick=27, thorough=540),
+    Workload("thresholds", wl_thresholds, quick=32, thorough=640),
+    Workload("edit-redraw", wl_edit_redraw, quick=54, thorough=1080),
     Workload("wrong-dimension", wl_wrong_dimension, quick=48, thorough=192),
     Workload("docs", wl_docs, quick=18, thorough=180),
 ]
